@@ -43,7 +43,12 @@ Theorem C10_obfuscated_instr_reads_back : forall i, valid_instr i = true ->
 Proof. exact obfuscated_instr_reads_back. Qed.
 Print Assumptions C10_obfuscated_instr_reads_back.
 
+Theorem C10_printed_register_reads_back : forall n, 0 <= n < 16 -> register_to_index (print_register n) = Some n.
+Proof. exact printed_register_reads_back. Qed.
+Print Assumptions C10_printed_register_reads_back.
+
 Example C10_int_example :
   print_int (-128) = [45; 49; 50; 56] /\ read_value [45; 48; 120; 49; 70] = Some (-31) /\
-  read_value [48; 49; 55] = Some 15 /\ read_value [48; 57] = None.
+  read_value [48; 49; 55] = Some 15 /\ read_value [48; 57] = None /\
+  register_to_index [80; 67; 95; 114; 101; 116] = Some 13 /\ register_to_index [82; 49; 54] = None.
 Proof. vm_compute. repeat split. Qed.
